@@ -329,6 +329,13 @@ def pigeonhole(ctx):
                and s[1][2][1][0] == "closure" and sts.index(s) > sts.index(seen[0])]
     if retains and (not loops or sts.index(retains[0]) < sts.index(loops[0])):
         return obs + _pigeonhole_retain(f, r, sts, retains[0], sv, N)
+    wl = _pigeonhole_while(f, sts, seen[0], sv)
+    if wl is not None and (not loops or sts.index(wl["loop"]) < sts.index(loops[0])):
+        obs.append(Ob(r, "covers-list", wl["covers"], "the dedup loop visits every element of the list (position 0 up to list.len(), advancing only past kept elements)", detail=wl.get("cond")))
+        obs.append(Ob(r, "no-skip", wl["no_skip"], "every element of the list reaches the occupancy test (no `continue`/`break`/conditional before it)"))
+        obs.append(Ob(r, "remove-or-mark", wl["rm_ok"], "each element is either removed (slot already occupied; the position stays) or marks its slot occupied and the position advances, on the same index", detail=wl.get("det")))
+        obs += _pigeonhole_tail(f, r, wl["idx"], N, sts[sts.index(wl["loop"]) + 1:])
+        return obs + floor(obs, r, 7, "pigeonhole obligations")
     need(loops, r, RHC, "(dedup loop)")
     lp = loops[0]
     rp = range_parts(strip_into_iter(lp[2]))
@@ -384,6 +391,83 @@ def pigeonhole(ctx):
             def idx_of(x, what):
                 return x[0] == "call" and x[1].endswith("EncodationType::index") and x[2][0][0] == "call" and x[2][0][1].endswith("GenericPlan::" + what)
             okidx = idx_of(a, "start_mode") and idx_of(b2, "current")
+    obs += _pigeonhole_tail(f, r, None, N, sts[sts.index(lp) + 1:], okidx=okidx)
+    return obs + floor(obs, r, 7, "pigeonhole obligations")
+
+
+def _pigeonhole_while(f, sts, seen_st, sv):
+    """the dedup pass as a position loop: `let mut pos = 0; while pos < list.len() { let slot = ..list[pos]..; if seen[slot] {
+    list.remove(pos); } else { seen[slot] = true; pos += 1; } }`"""
+    k0 = sts.index(seen_st)
+    for k in range(k0 + 1, len(sts)):
+        st = sts[k]
+        if st[0] != "loop":
+            continue
+        body = st[1]
+        if not (len(body) == 1 and body[0][0] == "if" and len(body[0][3]) == 1 and body[0][3][0][0] == "break"):
+            return None
+        cond, inner = body[0][1], body[0][2]
+        if not (cond[0] == "bin" and cond[1] == "Lt" and cond[2][0] == "var" and cond[3][0] == "call" and cond[3][1].endswith("Vec::len")
+                and is_var(strip_into_iter(cond[3][2][0]), "list")):
+            return None
+        pv = cond[2]
+        init = [s for s in sts[:k] if s[0] == "let" and len(pv) > 2 and s[1] == pv[2]]
+        written_between = [s for s in T.stmt_walk(sts[sts.index(init[0]) + 1:k]) if s[0] in ("assign", "assignop") and s[1 if s[0] == "assign" else 2] == pv] if init else [1]
+        covers = bool(init) and init[0][3] == ("lit", 0) and not written_between
+        lets = {s[1].split("#")[0]: s[3] for s in inner if s[0] == "let" and not s[2]}
+
+        def expand(e, d=6):
+            if not isinstance(e, tuple) or d <= 0:
+                return e
+            if e[0] == "var" and e[1] in lets:
+                return expand(lets[e[1]], d - 1)
+            if e[0] == "call":
+                e1 = ("call", e[1], tuple(expand(a, d - 1) for a in e[2]))
+                if e[1].endswith(("GenericPlan::start_mode", "GenericPlan::current", "EncodationType::index")):
+                    return e1
+                e2 = T.inline_pure_helper(f, e1, depth=1)
+                return e2 if e2[0] == "call" and e2[1] == e[1] else expand(e2, d - 1)
+            if e[0] in ("bin",):
+                return ("bin", e[1], expand(e[2], d - 1), expand(e[3], d - 1))
+            if e[0] in ("ref", "deref", "borrow") and len(e) >= 2:
+                return expand(e[-1], d - 1)
+            return e
+
+        def slot_of(e):
+            if e[0] == "index" and is_var(e[1], sv):
+                return e[2]
+            if e[0] == "call" and (e[1].endswith("::index") or e[1].endswith("::index_mut")) and is_var(strip_into_iter(e[2][0]), sv):
+                return e[2][1]
+            return None
+        ifs = [s for s in inner if s[0] == "if" and slot_of(s[1]) is not None]
+        no_skip = len(ifs) == 1 and all(s[0] in ("let", "letpat") for s in inner[:inner.index(ifs[0])]) and inner[-1] is ifs[0] if ifs else False
+        rm_ok, det, idx = False, None, None
+        if len(ifs) == 1:
+            th, el = ifs[0][2], ifs[0][3]
+            slot = slot_of(ifs[0][1])
+            rms = [x for s in th for e in T.stmt_exprs(s) for x in T.sx_calls(e, "Vec::remove")]
+            pos_writes_then = [s for s in T.stmt_walk(th) if s[0] in ("assign", "assignop") and s[1 if s[0] == "assign" else 2] == pv]
+            marks = [s for s in el if s[0] == "assign" and slot_of(s[1]) == slot and s[2] == ("lit", True)]
+            adv = [s for s in el if s[0] == "assignop" and s[1] == "AddAssign" and s[2] == pv and s[3] == ("lit", 1)]
+            other_pos = [s for s in T.stmt_walk(el) if s[0] in ("assign", "assignop") and s[1 if s[0] == "assign" else 2] == pv and s not in adv]
+            exits = [s for s in T.stmt_walk(inner) if s[0] in ("break", "continue", "return")]
+            idx = expand(slot)
+            # the examined element is list[pos]: every plan accessor in the slot expression is applied to it
+            elem_ok = all(x[2][0] == ("call", x[2][0][1], (x[2][0][2][0], pv)) and x[2][0][1].endswith("::index") and is_var(strip_into_iter(x[2][0][2][0]), "list")
+                          for x in T.sx_walk(idx) if isinstance(x, tuple) and x and x[0] == "call" and x[1].endswith(("GenericPlan::start_mode", "GenericPlan::current"))
+                          and x[2] and isinstance(x[2][0], tuple) and x[2][0][0] == "call" and len(x[2][0][2]) == 2) and any(
+                              isinstance(x, tuple) and x and x[0] == "call" and x[1].endswith("GenericPlan::start_mode") for x in T.sx_walk(idx))
+            rm_ok = len(rms) == 1 and is_var(strip_into_iter(rms[0][2][0]), "list") and rms[0][2][1] == pv and not pos_writes_then and len(marks) == 1 \
+                and len(adv) == 1 and not other_pos and not exits and elem_ok
+            det = {"idx": T.sx_show(idx), "removed": T.sx_show(rms[0]) if rms else None, "element-is-list[pos]": elem_ok}
+        return {"loop": st, "covers": covers, "cond": T.sx_show(cond), "no_skip": bool(no_skip), "rm_ok": rm_ok, "det": det, "idx": idx}
+    return None
+
+
+def _pigeonhole_tail(f, r, idx, N, rest_sts, okidx=None):
+    obs = []
+    if okidx is None:
+        okidx = idx is not None and _slot_ok(idx)
     obs.append(Ob(r, "slot", okidx, "the slot is start_mode().index() * 6 + current().index()"))
     # index() is a bijection onto 0..6
     fn = "encodation::encodation_type::EncodationType::index"
@@ -401,10 +485,8 @@ def pigeonhole(ctx):
     obs.append(Ob(r, "index-bijection", okb, "EncodationType::index() is a bijection onto 0..6 (so the slot is < 36)", detail=vals))
     obs.append(Ob(r, "bound", isinstance(N, int) and N >= 36 and okb and okidx, "at most N = %s plans survive remove_hopeless_cases; the second pass only removes" % N))
     # second pass only removes
-    rest_sts = sts[sts.index(lp) + 1:]
     adds = [x for st in T.stmt_walk(rest_sts) for e in T.stmt_exprs(st) for x in T.sx_walk(e) if x[0] == "call" and (x[1].endswith("Vec::push") or x[1].endswith("Vec::insert") or x[1].endswith("Vec::extend") or x[1].endswith("Vec::append"))]
     obs.append(Ob(r, "second-pass-removes", not adds, "after the dedup loop nothing is added to the list", detail=[T.sx_show(a) for a in adds]))
-    obs += floor(obs, r, 7, "pigeonhole obligations")
     return obs
 
 
@@ -611,6 +693,37 @@ def cost_write(ctx):
         ev, ew = branch(x["else"]) if "else" in x else (None, 0)
         det = {"then": (tv, tw), "else": (ev, ew)}
         ok = tv is not None and ev is not None and tv == tw and ev == ew
+    # primary: fold the constructor for written in {0, 1, 2, 250}: the price it starts with must equal what it books
+    try:
+        b = f.thir[name]
+        pn = [p_["pat"]["name"] for p_ in b["params"] if p_.get("pat", {}).get("k") == "Bind"]
+        if len(pn) == 2:
+            rows = []
+            for wr in (0, 1, 2, 250):
+                booked = []
+
+                def on_call(folder, c, booked=booked):
+                    cc = T.canon(T.callee_of(c))
+                    last = cc.split("::")[-1]
+                    if cc.endswith("ContextInformation::write"):
+                        booked.append(folder.fold(c["args"][1]))
+                        return ()
+                    if last in ("into", "from") and len(c["args"]) == 1:
+                        v = folder.fold(c["args"][0])
+                        if isinstance(v, bool):
+                            return int(v)
+                        if isinstance(v, int):
+                            return v
+                    return NotImplemented
+                fo = T.Folder(f, env={pn[0]: T.Token("ctx"), pn[1]: wr}, on_call=on_call, effects=True, local_calls=0)
+                res = fo.run(b["body"])
+                cost = res.get("cost") if isinstance(res, dict) else None
+                rows.append((wr, cost, sum(booked) if all(isinstance(x, int) for x in booked) else None, res.get("written") if isinstance(res, dict) else None))
+            if all(isinstance(c, int) and not isinstance(c, bool) and k is not None for _w, c, k, _x in rows):
+                ok = all(c == k for _w, c, k, _x in rows) and rows[0][1] == 1 and all(c == 0 for _w, c, _k, _x in rows[1:]) and all(w == x for w, _c, _k, x in rows)
+                det = {"(written, price, booked, stored written)": rows}
+    except (T.Undecidable, T.Trap, KeyError, IndexError, TypeError, AttributeError):
+        pass
     obs.append(Ob(r, "Base256Plan::with_written", ok, "a new Base256 run prices its length codeword and books it into the symbol-fill counter", detail=det))
     # the second length codeword: mode_switch_cost adds 1 <-> write_unlatch books 1 (thresholds compared by B256-SYNC)
     wu = _fn(f, "Base256Plan<T> as encodation::planner::Plan>::write_unlatch", r)
